@@ -16,7 +16,7 @@ RULE = ("[options reach the loop as the runner builds them: every case places ea
         "DIVAN_MIN_TIME/DIVAN_MAX_TIME as decimal seconds with sub-millisecond parts, the benchmark running on the virtual clock (--timer tsc), rounds "
         "compared with the model under the exactly converted limits (decimal_nanos); (5) two runs on the OS timer (Instant) with calls of at "
         "least 400 ms under a 1 s ceiling, judged by the bound of C04_rounds_bounded; (6) end to end on the virtual clock with an input generator "
-        "that takes external time: skip_ext_time from the bench attribute, the group, or Divan::skip_ext_time(false|true) (before or after "
+        "that takes external time: skip_ext_time from the bench attribute, the group, --skip-ext-time (bare, =true, =false), DIVAN_SKIP_EXT_TIME, or Divan::skip_ext_time(false|true) (before or after "
         "the limit; the builder wins), rounds read from the dumped event log, model driven by the same history. The harness logs every timestamp the loop takes; "
         "the log drives the extracted model; the extracted c04_sb (rounds = least k with not continue_after k, computed "
         "declaratively from the logged timestamps) is evaluated on the implementation's output. "
@@ -104,7 +104,7 @@ def streams(tier, rng):
         L.make_stream("c04-corpus", "c04", L.corpus("C04")),
         L.cli_time_stream("c04-cli-time-limits", cli),
         L.os_timer_stream("c04-os-timer-ceiling"),
-        L.skip_ext_stream("c04-e2e-skip-ext-time", L.skip_ext_cases(rng, 40 if not big else 300)),
+        L.skip_ext_stream("c04-e2e-skip-ext-time", L.skip_ext_cases(rng, 70 if not big else 300)),
         L.make_stream("c04-boundaries", "c04", aimed, hist=L.histogram(aimed),
                       describe="min/max at the elapsed time of a round, -1/0/+1 tick"),
         L.make_stream("c04-random-budgets", "c04", rand, hist=L.histogram(rand),
